@@ -22,6 +22,17 @@ const (
 	EV_KEY_REPEAT  = 2
 )
 
+// keyID identifies a hardware key: key codes are scoped to the sub-handler that reports them,
+// two sub-handlers of one device may report the same code.
+type keyID struct {
+	subHandler string
+	code       evdev.EvCode
+}
+
+func keyOf(ev *input.InputEvent) keyID {
+	return keyID{subHandler: ev.Source.Name, code: ev.Event.Code}
+}
+
 type Device struct {
 	noLogs      bool // skips producing most of the log entries for maximum performance
 	config      config.Config
@@ -41,8 +52,8 @@ type Device struct {
 	// is being tracked and released precisely on related hardware button release.
 	// This approach gives much nicer user experience as the User may conveniently hold some keys
 	// and modify state on the fly (changing octave, channel etc.), NoteOff events will be emitted correctly anyway.
-	noteTracker       map[evdev.EvCode][2]byte // 1: note, 2: channel
-	analogNoteTracker map[string][2]byte       // 1: note, 2: channel
+	noteTracker       map[keyID][2]byte  // 1: note, 2: channel
+	analogNoteTracker map[string][2]byte // 1: note, 2: channel
 	// used to track active occurrence number for given channel/note for purpose of handling clashed notes.
 	// more info in hidi.toml at "collision_mode" option.
 	activeNotesCounter map[byte]map[byte]int // map[channel]map[note]occurrence_number
@@ -131,7 +142,7 @@ func NewDevice(
 		externalNoteTracker:  inmap,
 		openrgbPort:          openrgbPort,
 
-		noteTracker:        make(map[evdev.EvCode][2]byte, 32),
+		noteTracker:        make(map[keyID][2]byte, 32),
 		keyTracker:         make(map[evdev.EvCode]struct{}, 32),
 		analogNoteTracker:  make(map[string][2]byte, 32),
 		activeNotesCounter: activeNoteCounter,
@@ -238,12 +249,12 @@ func (d *Device) NoteOn(ev *input.InputEvent) {
 		panic("unsupported collision mode")
 	}
 
-	d.noteTracker[ev.Event.Code] = [2]byte{note, channel}
+	d.noteTracker[keyOf(ev)] = [2]byte{note, channel}
 	d.activeNotesCounter[channel][note]++
 }
 
 func (d *Device) NoteOff(ev *input.InputEvent) {
-	noteAndChannel, ok := d.noteTracker[ev.Event.Code]
+	noteAndChannel, ok := d.noteTracker[keyOf(ev)]
 	if !ok {
 		return
 	}
@@ -254,18 +265,18 @@ func (d *Device) NoteOff(ev *input.InputEvent) {
 	case config.CollisionOff:
 		event = midi.NoteEvent(midi.NoteOff, channel, note, 0)
 		d.outputEvents <- event
-		delete(d.noteTracker, ev.Event.Code)
+		delete(d.noteTracker, keyOf(ev))
 		if !d.noLogs {
 			log.Info(event.String(), d.logFields(logger.Keys, zap.String("handler_event", ev.Source.DeviceInfo.Event()))...)
 		}
 	case config.CollisionNoRepeat, config.CollisionRetrigger, config.CollisionInterrupt:
 		if d.activeNotesCounter[channel][note] != 1 {
-			delete(d.noteTracker, ev.Event.Code)
+			delete(d.noteTracker, keyOf(ev))
 			break
 		}
 		event = midi.NoteEvent(midi.NoteOff, channel, note, 0)
 		d.outputEvents <- event
-		delete(d.noteTracker, ev.Event.Code)
+		delete(d.noteTracker, keyOf(ev))
 		if !d.noLogs {
 			log.Info(event.String(), d.logFields(logger.Keys, zap.String("handler_event", ev.Source.DeviceInfo.Event()))...)
 		}
